@@ -22,7 +22,7 @@ type BodyCase struct {
 	Syntax string `json:"syntax"` // native | json
 }
 
-const bodyRule = "bodies: 20 native body templates and 6 JSON bodies (attributes, static blocks, blocks not mentioned by the spec, dynamic blocks with default/custom/shadowing iterators, labels from the iterator, nested dynamics referring to outer iterators) x 9 hcldec specs; reported = hcldec.Variables (static bodies) or dynblock.ExpandVariablesHCLDec + dynblock.VariablesHCLDec (bodies with dynamic blocks); Expand+Decode in the full scope must equal Expand+Decode in the pruned and altered scopes; iterator names must not be reported"
+const bodyRule = "bodies: 23 native body templates and 6 JSON bodies (attributes, static blocks, blocks not mentioned by the spec, dynamic blocks with default/custom/shadowing iterators, labels from the iterator, nested dynamics referring to outer iterators) x 9 hcldec specs; reported = hcldec.Variables (static bodies) or dynblock.ExpandVariablesHCLDec + dynblock.VariablesHCLDec (bodies with dynamic blocks); Expand+Decode in the full scope must equal Expand+Decode in the pruned and altered scopes; iterator names must not be reported"
 
 var attrA = &hcldec.AttrSpec{Name: "a", Type: cty.DynamicPseudoType}
 var inner = hcldec.ObjectSpec{"a": attrA}
@@ -59,6 +59,9 @@ var templates = []tmpl{
 	{text: "dynamic \"b\" {\n  for_each = ls\n  content {\n    a = b.value\n  }\n}\n", bound: []string{"b"}},
 	{text: "dynamic \"b\" {\n  for_each = ls\n  iterator = it\n  content {\n    a = \"${it.key}-${sa}\"\n  }\n}\n", bound: []string{"it"}},
 	{text: "dynamic \"b\" {\n  for_each = ls\n  iterator = sa\n  content {\n    a = sa.value\n  }\n}\n", bound: []string{"sa"}},
+	{text: "dynamic \"b\" {\n  for_each = ls\n  iterator = ls\n  content {\n    a = ls.value\n  }\n}\n"},
+	{text: "dynamic \"b\" {\n  for_each = lo[0].b\n  iterator = lo\n  labels = [\"l\"]\n  content {\n    a = lo.key\n  }\n}\n", labels: true},
+	{text: "dynamic \"b\" {\n  for_each = mn\n  iterator = mn\n  content {\n    a = \"${mn.key}${sa}\"\n    dynamic \"c\" {\n      for_each = [mn.value, one]\n      iterator = one\n      content {\n        a = one.value\n      }\n    }\n  }\n}\n", nested: true},
 	{text: "dynamic \"b\" {\n  for_each = [for v in ln: v + one]\n  content {\n    a = b.value + two\n  }\n}\n", bound: []string{"b", "v"}},
 	{text: "dynamic \"b\" {\n  for_each = mn\n  labels = [b.key]\n  content {\n    a = sa\n  }\n}\n", labels: true, bound: []string{"b"}},
 	{text: "dynamic \"b\" {\n  for_each = mn\n  labels = [\"${s1}${b.key}\"]\n  content {\n    a = \"${b.value + one}\"\n  }\n}\n", labels: true, bound: []string{"b"}},
